@@ -574,6 +574,133 @@ def replay_conc(path, v, cfg, spec):
     return main(["C15", "quick"])
 
 
+def monitored_overlay(cfg):
+    """Runs the instrumenter on the current tree for configuration cfg; returns the overlay file."""
+    os.makedirs(BUILD, exist_ok=True)
+    inst = os.path.join(BUILD, "instrument")
+    p = subprocess.run(["go", "build"] + modfile_args() + ["-o", inst, "./cmd/instrument"], cwd=HARNESS, env=goenv(), stdout=subprocess.PIPE, stderr=subprocess.STDOUT, text=True)
+    if p.returncode != 0:
+        raise BuildError("instrumenter build failed:\n" + p.stdout[-2000:])
+    c = CONFIGS[cfg]
+    ovdir = os.path.join(BUILD, repo_tag(), cfg + "-mon", "ov")
+    shutil.rmtree(ovdir, ignore_errors=True)
+    os.makedirs(ovdir, exist_ok=True)
+    p = subprocess.run([inst, "-repo", REPO, "-tags", " ".join(c["tags"]), "-goarch", c["env"].get("GOARCH", "amd64"),
+                        "-shims", os.path.join(HARNESS, "inpkg"), "-out", ovdir], env=goenv(), stdout=subprocess.PIPE, stderr=subprocess.STDOUT, text=True)
+    if p.returncode != 0:
+        raise BuildError("instrumenter failed for %s:\n%s" % (cfg, p.stdout[-2000:]))
+    rep = json.load(open(os.path.join(ovdir, "report.json")))
+    return os.path.join(ovdir, "overlay.json"), rep
+
+
+def run_layers(agg, prop, tier, seed, spec, cfgs, nsh, wdir, prefix="L"):
+    jobs = []
+    for cfg, scale in cfgs:
+        try:
+            ov, rep = monitored_overlay(cfg)
+            binp = build(cfg, "layers", overlay=ov, extra_tags=["verifmon"], suffix="-mon")
+            missing = [m for v in rep.values() for m in (v.get("missing") or [])]
+            if missing:
+                agg.inconclusive.append("%s: instrumenter did not find %s (monitors on them are absent)" % (cfg, ",".join(missing)))
+        except BuildError as e:
+            log(str(e)[-1500:])
+            agg.inconclusive.append("%s: monitored build failed (overlay not applicable to this tree?)" % cfg)
+            continue
+        for s_ in range(nsh):
+            out = os.path.join(wdir, "%s%s-%d.json" % (prefix, cfg, s_))
+            jobs.append({"cfg": cfg, "out": out, "log": out + ".log",
+                         "args": [binp, "-prop", prop, "-tier", tier, "-seed", str(seed), "-shard", str(s_), "-nshards", str(nsh),
+                                  "-config", cfg, "-scale", str(scale), "-out", out]})
+    for j, st, rc in run_shards(jobs, spec.get("timeout", {}).get(tier, 2400)):
+        if st == "timeout":
+            agg.inconclusive.append("%s monitored-build shard watchdog fired (%s)" % (j["cfg"], os.path.basename(j["out"])))
+            continue
+        if os.path.exists(j["out"]):
+            agg.add_record(j["out"], j["cfg"])
+        if st == "crash":
+            if rc == 3:
+                agg.inconclusive.append("%s: harness reported inconclusive (rc=3): %s" % (j["cfg"], open(j["log"]).read()[-300:]))
+            else:
+                agg.violations.append(crash_violation(prop, j["cfg"], j, st, rc, sub="monitored-build-process"))
+
+
+def engine_layers(prop, tier, seed, spec):
+    agg = Agg(prop, tier, seed)
+    wdir = os.path.join(WORK, prop, "shards")
+    shutil.rmtree(wdir, ignore_errors=True)
+    os.makedirs(wdir, exist_ok=True)
+    nsh = spec.get("shards", {}).get(tier, NCPU)
+    run_layers(agg, prop, tier, seed, spec, spec["configs"][tier], nsh, wdir)
+    return finish(agg, spec, layer_cov(agg))
+
+
+def layer_cov(agg):
+    """Digest of the monitored-build observations for the evidence file."""
+    cl = agg.classes
+    ev_ = {k[7:]: v for k, v in cl.items() if k.startswith("events/") and "digit/" not in k and "selector/" not in k}
+    w4 = len([k for k in cl if k.startswith("events/w4digit/")])
+    sel = len([k for k in cl if k.startswith("events/selector/")])
+    sw = len([k for k in cl if k.startswith("events/swdigit/")])
+    env = {k[13:]: hex(v) for k, v in cl.items() if k.startswith("max/envelope/")}
+    # keep the class table readable: fold the per-digit counters
+    for k in [k for k in cl if k.startswith("events/w4digit/") or k.startswith("events/selector/") or k.startswith("events/swdigit/") or k.startswith("max/envelope/")]:
+        del cl[k]
+    return {"monitored_events": ev_, "radix16_(position,digit)_pairs_observed": w4, "selector_(position,digit)_pairs_observed": sel,
+            "sliding_window_(window,zone,digit)_classes_observed": sw, "operand_envelope_max_limb": env}
+
+
+def engine_api_plus_layers(prop, tier, seed, spec):
+    """API-level monitors on the plain build plus the inside monitor on the monitored build."""
+    agg = Agg(prop, tier, seed)
+    cfgs = spec["configs"][tier]
+    nsh = spec.get("shards", {}).get(tier, NCPU)
+    wdir = os.path.join(WORK, prop, "shards")
+    shutil.rmtree(wdir, ignore_errors=True)
+    os.makedirs(wdir, exist_ok=True)
+    jobs = []
+    for cfg, scale in cfgs:
+        try:
+            binp = build(cfg, "apimon")
+        except BuildError as e:
+            log(str(e))
+            agg.inconclusive.append("%s: build failed" % cfg)
+            continue
+        for s_ in range(nsh):
+            out = os.path.join(wdir, "%s-%d.json" % (cfg, s_))
+            jobs.append({"cfg": cfg, "out": out, "log": out + ".log",
+                         "args": [binp, "-prop", prop, "-tier", tier, "-seed", str(seed), "-shard", str(s_), "-nshards", str(nsh),
+                                  "-config", cfg, "-scale", str(scale), "-out", out]})
+    for j, st, rc in run_shards(jobs, spec.get("timeout", {}).get(tier, 1800)):
+        if st == "timeout":
+            agg.inconclusive.append("%s shard watchdog fired" % j["cfg"])
+            continue
+        if os.path.exists(j["out"]):
+            agg.add_record(j["out"], j["cfg"])
+        if st == "crash":
+            if rc == 3:
+                agg.inconclusive.append("%s: harness inconclusive: %s" % (j["cfg"], open(j["log"]).read()[-300:]))
+            else:
+                agg.violations.append(crash_violation(prop, j["cfg"], j, st, rc))
+    api_evals = agg.evaluations
+    run_layers(agg, prop, tier, seed, spec, spec["inside_configs"][tier], max(1, nsh // 4), wdir)
+    if api_evals < spec.get("floor", 1):
+        agg.evaluations = api_evals  # the floor applies to the API monitor alone
+    cov = layer_cov(agg)
+    cov["api_level_evaluations"] = api_evals
+    return finish(agg, spec, cov)
+
+
+def replay_layers(path, v, cfg, spec):
+    case = v.get("case", {})
+    if case.get("op") != "layer":
+        return replay_apimon(path, v, cfg, spec)
+    if cfg not in CONFIGS:
+        cfg = "K0"
+    ov, _ = monitored_overlay(cfg)
+    binp = build(cfg, "layers", overlay=ov, extra_tags=["verifmon"], suffix="-mon")
+    return subprocess.run([binp, "-config", cfg, "-replay", path]).returncode
+
+
 CT_OPS32 = ["keygen", "generatekey", "sign", "signctx", "signph", "x25519base", "scalarbasemult", "edpriv", "seed"]
 CT_NEED = {"keygen": "ScalarmultBaseNiels", "generatekey": "ScalarmultBaseNiels", "sign": "ScalarmultBaseNiels", "signctx": "ScalarmultBaseNiels",
            "signph": "ScalarmultBaseNiels", "x25519base": "ScalarmultBaseNiels", "scalarbasemult": "ScalarmultBaseNiels", "edpriv": "EdPrivateKeyToX25519", "seed": None, "equal": None}
@@ -716,7 +843,8 @@ def replay_ct(path, v, cfg, spec):
     return 0
 
 
-ENGINES = {"apimon": engine_apimon, "transcript": engine_transcript, "conc": engine_conc, "ct": engine_ct}
+ENGINES = {"apimon": engine_apimon, "transcript": engine_transcript, "conc": engine_conc, "ct": engine_ct,
+           "layers": engine_layers, "api+layers": engine_api_plus_layers}
 
 API_RULE_VERIFY = ("triples are built constructively with the big-integer model (W-honest, W-torsion 8x8, W-smallkey x W-Sbound, "
                    "W-noncanonR, single-bit perturbations, S+kL, W-garbage, signature lengths 0..70) and judged by the model predicate; "
@@ -729,7 +857,8 @@ SPECS = {
             "rule": "(seed, message, variant/context) combinations; each is signed through every option form and compared byte-for-byte with the RFC 8032 model and crypto/ed25519; all are non-trivial; distinct = FNV-64 of (seed, message, variant, context)"},
     "C03": {"engine": "apimon", "configs": {"quick": [("K0", 1)], "thorough": [("K0", 1), ("K2", 0.2), ("K6", 0.2)]}, "floor": 1200,
             "rule": "library-made signatures checked in single default, single ZIP-215 and as batch member (both modes) at swept positions/sizes/entropy streams; distinct = FNV-64 of (seed, message, variant, context, n, pos, entropy)"},
-    "C04": {"engine": "apimon", "configs": {"quick": [("K0", 1)], "thorough": [("K0", 1), ("K2", 0.1), ("K6", 0.1)]}, "floor": 2000, "rule": API_RULE_VERIFY},
+    "C04": {"engine": "api+layers", "configs": {"quick": [("K0", 1)], "thorough": [("K0", 1), ("K2", 0.1), ("K6", 0.1)]}, "inside_configs": {"quick": [("K0", 1)], "thorough": [("K0", 1), ("K2", 0.3)]},
+            "floor": 2000, "rule": API_RULE_VERIFY + "; plus every scMinimal call of the monitored build (driven directly with W-Sbound, every comparison word at -1/0/+1, all 256 top bytes) judged against S < L"},
     "C05": {"engine": "apimon", "configs": {"quick": [("K0", 1)], "thorough": [("K0", 1), ("K2", 0.1), ("K6", 0.1)]}, "floor": 4000, "rule": API_RULE_VERIFY},
     "C06": {"engine": "apimon", "configs": {"quick": [("K0", 1)], "thorough": [("K0", 1), ("K2", 0.15), ("K6", 0.15)]}, "floor": 500,
             "rule": "one evaluation = one VerifyBatch call judged entry-by-entry against observed single verification and the model; non-trivial = batches with n > 0; distinct = FNV-64 of (n, options, entropy, first 8 keys/signatures)"},
@@ -741,11 +870,36 @@ SPECS = {
     "C15": {"engine": "conc", "configs": {"quick": ["K0", "K2"], "thorough": ["K0", "K1", "K2", "K4", "K5", "K6"]}, "floor": 15000,
             "rule": "evaluations = API calls executed in shuffled sequential orders and concurrently (G goroutines x GOMAXPROCS shapes, -race build) and compared with the solitary result of the same call from a fresh process; non-trivial/distinct = distinct ordered (predecessor, call) pairs in sequential mode plus distinct pairs of different calls whose executions overlapped (ticket counter) in concurrent mode",
             "assumptions": ["Go race detector (happens-before, reports only races that occur in observed executions; amd64 only, GOARCH=386 runs without it)", "solitary results come from the same build configuration, one fresh process per call", "interleavings are those the Go scheduler produced under the listed goroutine/GOMAXPROCS shapes with PRNG-driven Gosched"]},
+    "C16": {"engine": "layers", "configs": {"quick": [("K0", 1), ("K1", 0.5), ("K2", 0.5)], "thorough": [("K0", 1), ("K1", 0.3), ("K2", 0.5), ("K3", 0.1), ("K4", 0.3), ("K5", 0.3), ("K6", 0.15)]}, "floor": 3000,
+            "rule": "evaluations = workload items (selector cases 32x17 exhaustive on every configuration, conditional-move cases, fixed-base and double-base multiplications incl. digit-targeted scalars, group-law blocks, API rounds); each instrumented call inside them is judged by the monitors (counts under monitored_events); distinct = distinct scalar-multiplication inputs and selector cases",
+            "assumptions": ["the big-integer specification of each routine (package mon) and the reference model (package ref), self-validated at start-up",
+                            "monitor wrappers are generated from the function signatures of the current tree (go/ast) and injected with -overlay; a routine whose wrapper cannot be generated is reported inconclusive",
+                            "direct workloads stay inside the caller-reachable operand forms (R, one level of add/sub, after-basic forms); the operand envelope observed on API executions is printed next to the driven one",
+                            "only executions the workload produced are judged"]},
+    "C17": {"engine": "layers", "configs": {"quick": [("K0", 1), ("K2", 0.5)], "thorough": [("K0", 1), ("K2", 0.5), ("K6", 0.25)]}, "floor": 500, "timeout": {"quick": 1200, "thorough": 3600},
+            "rule": "evaluations = batch-shaped heaps fed to the real multi-scalar routine (scalars derived from adversarial (r,h,S) tuples as VerifyBatch derives them, pre-filtered by a 200k-step schedule simulation) plus all-valid VerifyBatch calls watched by the fallback counter; every multiScalarmultVartime call (direct or inside VerifyBatch) is compared with the model sum; distinct = FNV-64 of the case parameters",
+            "assumptions": ["the big-integer specification of each routine (package mon) and the reference model (package ref), self-validated at start-up",
+                            "monitor wrappers are generated from the function signatures of the current tree (go/ast) and injected with -overlay; a routine whose wrapper cannot be generated is reported inconclusive",
+                            "direct workloads stay inside the caller-reachable operand forms (R, one level of add/sub, after-basic forms); the operand envelope observed on API executions is printed next to the driven one",
+                            "only executions the workload produced are judged"]},
+    "C18": {"engine": "layers", "configs": {"quick": [("K0", 1), ("K2", 1)], "thorough": [("K0", 1), ("K1", 0.1), ("K2", 1), ("K4", 0.2), ("K6", 0.3)]}, "floor": 50000,
+            "rule": "evaluations = compositional field rounds (level-0 boundary forms, one-level add/sub, after-basic forms, all aliasing patterns, serialisation of unreduced forms) plus API rounds; every instrumented field call is compared with its residue specification (counts under monitored_events); distinct = FNV-64 of the round's serialised operands",
+            "assumptions": ["the big-integer specification of each routine (package mon) and the reference model (package ref), self-validated at start-up",
+                            "monitor wrappers are generated from the function signatures of the current tree (go/ast) and injected with -overlay; a routine whose wrapper cannot be generated is reported inconclusive",
+                            "direct workloads stay inside the caller-reachable operand forms (R, one level of add/sub, after-basic forms); the operand envelope observed on API executions is printed next to the driven one",
+                            "only executions the workload produced are judged"]},
+    "C19": {"engine": "layers", "configs": {"quick": [("K0", 1), ("K2", 1)], "thorough": [("K0", 1), ("K1", 0.1), ("K2", 1), ("K4", 0.2), ("K6", 0.3)]}, "floor": 40000,
+            "rule": "evaluations = scalar rounds (k*L+rho inputs over all quotient magnitudes and the remainder boundary set, boundary pairs for add/mul, digit-targeted recoding inputs, vartime helpers per limb count) plus API rounds; every instrumented scalar call is compared with its integer specification; distinct = FNV-64 of the round's reduction inputs",
+            "assumptions": ["the big-integer specification of each routine (package mon) and the reference model (package ref), self-validated at start-up",
+                            "monitor wrappers are generated from the function signatures of the current tree (go/ast) and injected with -overlay; a routine whose wrapper cannot be generated is reported inconclusive",
+                            "direct workloads stay inside the caller-reachable operand forms (R, one level of add/sub, after-basic forms); the operand envelope observed on API executions is printed next to the driven one",
+                            "only executions the workload produced are judged"]},
     "C20": {"engine": "ct", "configs": {"quick": ["K0", "K1", "K2"], "thorough": ["K0", "K1", "K2", "K3", "K4", "K5", "K6"]}, "floor": 60,
             "rule": "one evaluation = one pair (reference secret, other secret) of lackey traces of the same operation with identical public inputs, compared on PC sequence, memory-op shape, static addresses and per-page-pair constant offsets of dynamic addresses; every pair is non-trivial (secrets differ); distinct = (config, op, secret pair)",
             "assumptions": ["valgrind 3.19 lackey reports every executed guest instruction and memory access of the static Go binary", "Go runtime housekeeping (allocator, scheduler, GC, other threads) is excluded from the window by symbol; library code inlined into excluded symbols does not occur",
                             "data-dependent instruction latency is not visible in a PC/address trace", "only amd64 and 386 back ends that execute here"]},
-    "C09": {"engine": "apimon", "configs": {"quick": [("K0", 1)], "thorough": [("K0", 1), ("K2", 0.1), ("K6", 0.1)]}, "floor": 1500, "rule": API_RULE_VERIFY},
+    "C09": {"engine": "api+layers", "configs": {"quick": [("K0", 1)], "thorough": [("K0", 1), ("K2", 0.1), ("K6", 0.1)]}, "inside_configs": {"quick": [("K0", 1)], "thorough": [("K0", 1), ("K2", 0.3)]},
+            "floor": 1500, "rule": API_RULE_VERIFY + "; plus every isSmallOrderVartime call of the monitored build judged against 'undecodable or [8]P = identity'"},
     "C10": {"engine": "apimon", "configs": {"quick": [("K0", 1)], "thorough": [("K0", 1), ("K2", 0.25), ("K6", 0.1)]}, "floor": 15000,
             "rule": "32-byte strings (special y values, all y >= p, mixed-order points in every encoding, garbage, random) decoded by the library and the model; every string is non-trivial (about half decode); distinct = FNV-64 of the string"},
     "C11": {"engine": "apimon", "configs": {"quick": [("K0", 1)], "thorough": [("K0", 1), ("K2", 0.3), ("K3", 0.3), ("K6", 0.1)]}, "floor": 3000,
@@ -811,4 +965,4 @@ def replay_apimon(path, v, cfg, spec):
     return p.returncode
 
 
-REPLAYERS = {"apimon": replay_apimon, "transcript": replay_transcript, "conc": replay_conc, "ct": replay_ct}
+REPLAYERS = {"apimon": replay_apimon, "transcript": replay_transcript, "conc": replay_conc, "ct": replay_ct, "layers": replay_layers, "api+layers": replay_layers}
